@@ -163,6 +163,9 @@ fn main() {
             if acc && !o.pred.fails() {
                 accepted_valid += 1;
             }
+            if acc && ctx.opt("list") == Some("accepted") {
+                eprintln!("ACCEPTED {} {} {} pred={}", case.name(), f.to_json(), o.key(), o.pred.short());
+            }
             if o.violation() {
                 accepted_false += 1;
                 report.violation(
